@@ -239,6 +239,7 @@ type termBuilder struct {
 	info  *types.Info
 	inl   map[types.Object]ast.Expr // single-assignment locals with a pure definition
 	sub   map[types.Object]*Term    // parameters of an inlined helper -> the caller's argument terms
+	inlRes map[types.Object]localDef // canonical rendering only: v, err := f() -> v is res(0, f())
 	depth int
 	fset  *token.FileSet
 }
@@ -332,6 +333,12 @@ func (b *termBuilder) term(e ast.Expr) *Term {
 				return mk("const", objQual(o)) // package-level variable: named by identity
 			}
 			if t, ok := b.sub[o]; ok {
+				return t
+			}
+			if d, ok := b.inlRes[o]; ok && b.depth < 6 {
+				b.depth++
+				t := mk("res", fmt.Sprint(d.idx), b.term(d.e))
+				b.depth--
 				return t
 			}
 			if def, ok := b.inl[o]; ok && b.depth < 6 {
